@@ -99,6 +99,20 @@ func NewReal(srcs []string, seed string, storer variable.Storer) (r *Real, err e
 	return &Real{DR: dr}, nil, ""
 }
 
+// NewRealFrom is NewReal for arbitrary readers (short reads, failing readers).
+func NewRealFrom(readers []io.Reader, seed string, storer variable.Storer) (r *Real, err error, panicked string) {
+	defer func() {
+		if p := recover(); p != nil {
+			r, err, panicked = nil, nil, fmt.Sprint(p)
+		}
+	}()
+	dr, err := ysgo.NewDialogueRunner(storer, seed, readers...)
+	if err != nil {
+		return nil, err, ""
+	}
+	return &Real{DR: dr}, nil, ""
+}
+
 // Next calls the real Next and classifies the result.
 func (r *Real) Next(choice int) (o RealObs) {
 	defer func() {
